@@ -304,6 +304,11 @@ def getitem(interp, obj, key):
         return pymat.arr_getitem_tuple(interp, obj, key)
     if isinstance(obj, SArr):
         n = zlen(obj.length())
+        if isinstance(key, slice) and key.step == -1 and key.start is None and key.stop is None:
+            # x[::-1]: the reversed sequence (read-only uses: modelled as a reversed copy, not a view)
+            src = freeze(obj)
+            ne = z3.IntVal(n) if isinstance(n, int) else n
+            return interp.array_from_fn(lambda j: src(z3.simplify(ne - 1 - j)), n, obj.kind, "reversed")
         if isinstance(key, slice):
             lo, hi = norm_slice(interp, key, n)
             st = key.step or 1
@@ -1541,11 +1546,13 @@ def np_sort(interp, args, kw):
     inv = z3.Function("sortinv!%d" % cnt, z3.IntSort(), z3.IntSort())     # output index -> input index
     i, j = z3.Int("i!sort"), z3.Int("j!sort")
     ne = z3.IntVal(n) if isinstance(n, int) else n
-    interp.assume(z3.ForAll([i, j], z3.Implies(z3.And(0 <= i, i <= j, j < ne), out(i) <= out(j))))
-    interp.assume(z3.ForAll([i], z3.Implies(z3.And(0 <= i, i < ne),
-                                            z3.And(pos(i) >= 0, pos(i) < ne, out(pos(i)) == get(i)))))
-    interp.assume(z3.ForAll([i], z3.Implies(z3.And(0 <= i, i < ne),
-                                            z3.And(inv(i) >= 0, inv(i) < ne, get(inv(i)) == out(i)))))
+    # quantified facts go to interp.axioms (used by proofs, not by branch decisions)
+    ax = interp.__dict__.setdefault("axioms", [])
+    ax.append(z3.ForAll([i, j], z3.Implies(z3.And(0 <= i, i <= j, j < ne), out(i) <= out(j))))
+    ax.append(z3.ForAll([i], z3.Implies(z3.And(0 <= i, i < ne),
+                                        z3.And(pos(i) >= 0, pos(i) < ne, out(pos(i)) == get(i)))))
+    ax.append(z3.ForAll([i], z3.Implies(z3.And(0 <= i, i < ne),
+                                        z3.And(inv(i) >= 0, inv(i) < ne, get(inv(i)) == out(i)))))
     interp.ghost["sorts"].append((out, pos, inv, get, n))
     r = interp.array_from_fn(lambda jj: out(jj), n, k, "sorted")
     return r
